@@ -118,6 +118,14 @@ def c01_cases():
         assert not ib.confusing_plain(h["classes"]), tag
         out.append((f"plain-mid-slotted-leaf-{tag}", c01.make_case(h, call("t1"))))
         out.append((f"plain-mid-slotted-leaf-{tag}-kw", c01.make_case(h, call(x="t1"))))
+    # -- instances of user SUBCLASSES of attr.Factory / attr.Converter / and_()'s class behave like the base types
+    for tag, api in (("attr-s", "attr.s"), ("define", "define"), ("make-class", "make_class"), ("these", "these"), ("frozen", "frozen")):
+        fields = [F("x", default="factory", helper_sub=True), F("y", default="factory_self", helper_sub=True, converter="c10"),
+                  F("z", default="factory", helper_sub=True, init=False, converter="plain"),
+                  F("w", default="factory_self", helper_sub=True, init=False, validators=2, v_and=True)]
+        h = H([C("C0", api, fields)])
+        out.append((f"helper-subclasses-{tag}-defaults", c01.make_case(h, call())))
+        out.append((f"helper-subclasses-{tag}-passed", c01.make_case(h, call("t1", "t2"))))
     # -- one attrs.Converter OBJECT serves fields of different names in different classes (first a field `x` of a
     #    throw-away class, then `y` here): `y` goes through ITS converter, whatever `x` has here
     for tag, api in (("attr-s", "attr.s"), ("define", "define"), ("make-class", "make_class"), ("attr-s-frozen-slots", "attr.s")):
@@ -184,6 +192,13 @@ def c02_cases():
         hp = H([C("C0", "attr.s", [F("x")], auto_exc=True, post=True, post_mode=mode), C("C1", "define", [F("y", default="value", kw_only=True)])],
                exc_root="ValueError")
         out.append((f"post-init-{mode}-inherited-hook", c02.make_case(hp, call("t1", y="t2"), None, True)))
+    # -- subclasses of the helper types in the full trace (factory called, converter given what it asked for, every
+    #    member of the composite run)
+    hs = H([C("C0", "attr.s", [F("x", default="factory_self", helper_sub=True, converter="c11", validators=3, v_and=True),
+                               F("y", default="factory", helper_sub=True, init=False, converter="pipe", pipe=["plain", "c10"], pipe_style="list")],
+              post=True)])
+    out.append(("helper-subclasses-trace", c02.make_case(hs, call(), None, True)))
+    out.append(("helper-subclasses-trace-fault", c02.make_case(hs, call(), ["validator", "x", 1], True, "stop")))
     # -- a look-alike twin first: validators / takes_field converters must be handed THIS class's Attribute objects
     for tag, api in (("attr-s", "attr.s"), ("define", "define"), ("make-class", "make_class"), ("these", "these")):
         h = H([C("C0", api, [F("x", validators=2, converter="c01"), F("y", default="value", validators=1, v_deco=1, converter="c11")], post=True)])
